@@ -120,7 +120,7 @@ def custom_admits(c, state):
 
 class C07(Prop):
     id = "C07"
-    lean_modules = ["VivModel.Props.C07"]
+    lean_modules = ["VivModel.Props.C07", "VivModel.Props.C07Src"]
     build_targets = ["VivModel.Model.Context", "VivModel.Model.Services", "VivModel.Model.Proto"]
     driver = "C07"
     technique = ("Lean 4 proof (decide over the constraint table regenerated from every add_constraint call site; invariant proofs over "
